@@ -670,7 +670,8 @@ theorem wfName_base26 (hc : ClsOk10 cls) (n : Nat) : WfName cls (base26 n) := by
       exact hc.lower_alnum d this.1 this.2
     · intro d hd
       have := hr d hd
-      refine ⟨hc.lower_not_ws d this.1 this.2, ?_, ?_, ?_⟩ <;> simp [cLparen, cRparen, cDot] <;> omega
+      refine ⟨hc.lower_not_ws d this.1 this.2, ?_, ?_, ?_, ?_⟩ <;>
+        simp [cLparen, cRparen, cDot, cBackslash] <;> omega
 
 theorem wfName_varName (hc : ClsOk10 cls) (M d i : Nat) : WfName cls (varName M d i) := by
   unfold varName fname; split <;> exact wfName_base26 hc _
@@ -691,7 +692,8 @@ theorem renders_show (hc : ClsOk10 cls) (lam : Nat) (hl : isLam lam = true) (M :
     intro ctx d rest s hr hs
     have hb : noUD b = true := by simpa [noUD] using h
     by_cases hctx : ctx > 1
-    · have := ih hb 0 (d + 1) (CRparen :: rest) (cRparen :: s) (.rparen hr) (Or.inr (Or.inr rfl))
+    · have := ih hb 0 (d + 1) (CRparen :: rest) (cRparen :: s) (.rparen hr)
+        (Or.inr (Or.inr (Or.inl rfl)))
       have := Renders.lparen (Renders.lam hl (wfName_base26 hc d) this)
       simpa [showCla, nameOf, printN, parenIf, parenC, hctx, cLparen, cRparen, cDot] using this
     · have := Renders.lam hl (wfName_base26 hc d) (ih hb 0 (d + 1) rest s hr hs)
@@ -702,7 +704,8 @@ theorem renders_show (hc : ClsOk10 cls) (lam : Nat) (hl : isLam lam = true) (M :
     have hsp : NameEnd cls (32 :: (showCla lam M r 3 d ++ s)) := Or.inl hc.space_ws
     by_cases hctx : ctx = 3
     · subst hctx
-      have h2 := ihr h.2 3 d (CRparen :: rest) (cRparen :: s) (.rparen hr) (Or.inr (Or.inr rfl))
+      have h2 := ihr h.2 3 d (CRparen :: rest) (cRparen :: s) (.rparen hr)
+        (Or.inr (Or.inr (Or.inl rfl)))
       have h1 := ihl h.1 2 d _ _ (Renders.ws hc.space_ws h2) (Or.inl hc.space_ws)
       have := Renders.lparen h1
       simpa [showCla, nameOf, printN, parenIf, parenC, cLparen, cRparen] using this
